@@ -154,7 +154,7 @@ class Model:
                             tree = canonicalise(raw)
                         else:
                             py, side = pyxfront.rewrite(src, rel)
-                            tree = canonicalise(_flatten_cdef(ast.parse(py, filename=rel)))
+                            tree = canonicalise(_flatten_cdef(ast.parse(py, filename=rel)), second_stage=False)
                 except (SyntaxError, pyxfront.PyxError, IndexError, ValueError, UnboundLocalError) as e:
                     raise Undecided(f'cannot parse {rel}: {type(e).__name__}: {e}')
                 m = Module(name, path, rel, kind, src, tree, side, is_pkg)
